@@ -661,10 +661,16 @@ def generate(cells, tag, rng=None, extras=True, with_tests=False) -> Program:
     import random
     g = _Gen(cells, tag, rng or random.Random(0), with_tests)
     for c in cells:
+        before = len(g.p.planted)
         if c["view"] in SYM_VIEWS:
             g.emit_sym(c)
         else:
             g.emit_go(c)
+        if c["nameClass"] == "reflected":
+            # the types and fields reachable from a value handed to reflect keep their names too
+            for o in g.p.planted[before:]:
+                if o.role == "helper" and o.kind in ("type", "field", "embeddedField", "embeddedAlias", "genericType", "alias"):
+                    o.name_class = "reflected"
     return g.finish(extras)
 
 
@@ -697,3 +703,193 @@ def pack(cells, size, rng):
         m["cells"].append(c)
         m["keys"] |= ks
     return [sorted(m["cells"], key=lambda c: c["id"]) for m in mods if m["cells"]]
+
+
+# =========================================================================== build matrix
+class Config:
+    def __init__(self, name, flags=(), toobf="TT", names=False):
+        self.name, self.flags, self.toobf, self.names = name, list(flags), toobf, names
+
+    def __repr__(self):
+        return self.name
+
+
+def configs_for(tier, rng):
+    import base64
+    seed = base64.b64encode(rng.randbytes(9)).decode()
+    cfgs = [Config("default", [], "TT", names=True), Config("tiny", ["-tiny"]), Config("seed", [f"-seed={seed}"]),
+            Config("literals", ["-literals"]), Config("gogarble-main", [], "TF", names=True), Config("gogarble-dep", [], "FT", names=True)]
+    if tier == "thorough":
+        seed2 = base64.b64encode(rng.randbytes(12)).decode()
+        cfgs += [Config("all-flags", ["-tiny", "-literals", f"-seed={seed2}"]), Config("seed-random", ["-seed=random"])]
+    only = os.environ.get("VERIF_NAMING_CONFIGS")   # development knob: restrict the configurations
+    if only:
+        cfgs = [c for c in cfgs if c.name in only.split(",")]
+    return cfgs
+
+
+class Built:
+    def __init__(self, prog, cfg, res, binary, trace, tmpdir, cmd, cwd, env):
+        self.prog, self.cfg, self.res, self.binary, self.trace, self.tmpdir = prog, cfg, res, binary, trace, tmpdir
+        self.cmd, self.cwd, self.env = cmd, cwd, env
+        self.runs = {}   # tuple(args) -> Result
+
+    @property
+    def ok(self):
+        return self.res.returncode == 0 and self.binary.exists()
+
+    def describe(self):
+        envs = " ".join(f"{k}={v}" for k, v in sorted(self.env.items()))
+        return f"cd {self.cwd} && {envs} {' '.join(str(c) for c in self.cmd)}"
+
+
+_MEMO = {}   # in-process cache: (matrix id, module tag, config name) -> Built
+
+
+class Matrix:
+    """Builds generated modules with the regular toolchain and with garble under several
+    configurations, one private sandbox (GOCACHE, GARBLE_CACHE) per configuration."""
+
+    def __init__(self, name, garble_bin=None):
+        self.root = mkscratch(name)
+        self.src = self.root / "src"
+        self.bin = self.root / "bin"
+        self.src.mkdir()
+        self.bin.mkdir()
+        self.garble_bin = garble_bin or build_garble("verif")
+        self.sandboxes = {}
+        self.lock = threading.Lock()
+        self.linker_seed = None
+        self.garble_builds = 0
+        self.want_names = True
+
+    def write(self, prog):
+        d = self.src / prog.srcdir
+        if not d.exists():
+            write_module(d, prog.files)
+        return d
+
+    def sandbox(self, key):
+        with self.lock:
+            sb = self.sandboxes.get(key)
+            if sb is None:
+                sb = Sandbox(self.root / f"sb-{key}", template=(key != "go"), garble_bin=self.garble_bin, tmpdir=self.root / f"tmp_zqv{key.replace('-', '')}out")
+                if self.linker_seed is not None and (self.linker_seed / "tool").exists() and not (sb.gcache / "tool").exists():
+                    copytree(self.linker_seed / "tool", sb.gcache / "tool")
+                self.sandboxes[key] = sb
+            return sb
+
+    def prime_linker(self, prog, cfg):
+        """The first garble link builds the patched linker (13 s); do it once and copy it to the other sandboxes."""
+        b = self.garble(prog, cfg)
+        self.linker_seed = self.sandbox(cfg.name).gcache
+        return b
+
+    def regular(self, prog) -> Built:
+        key = (id(self), prog.tag, "go")
+        if key in _MEMO:
+            return _MEMO[key]
+        d = self.write(prog)
+        sb = self.sandbox("go")
+        out = self.bin / f"zqvbin_go_{prog.tag}"
+        cmd = ["go", "build", "-o", str(out)] + ([f"-ldflags={' '.join(prog.ldflags)}"] if prog.ldflags else []) + ["./" + prog.maindir]
+        res = sb.go(cmd[1:], cwd=d)
+        b = Built(prog, Config("go"), res, out, None, None, cmd, d, {})
+        _MEMO[key] = b
+        return b
+
+    def garble(self, prog, cfg, tmp_inside=False, extra_env=None) -> Built:
+        key = (id(self), prog.tag, cfg.name)
+        if key in _MEMO:
+            return _MEMO[key]
+        d = self.write(prog)
+        sb = self.sandbox(cfg.name)
+        out = self.bin / f"zqvbin_{cfg.name}_{prog.tag}"
+        trace = self.root / f"trace-{cfg.name}-{prog.tag}.ndjson"
+        env = {}
+        gg = prog.gogarble(cfg.toobf)
+        if gg:
+            env["GOGARBLE"] = gg
+        if cfg.names and self.want_names:
+            env["GARBLE_VERIF_NAMES"] = "1"
+        tmpdir = sb.tmpdir
+        if tmp_inside:
+            tmpdir = d / f"tmp_zqv{prog.tag}in"
+            tmpdir.mkdir(exist_ok=True)
+            env["TMPDIR"] = str(tmpdir)
+        if extra_env:
+            env.update(extra_env)
+        args = cfg.flags + ["build", "-o", str(out)] + ([f"-ldflags={' '.join(prog.ldflags)}"] if prog.ldflags else []) + ["./" + prog.maindir]
+        res = sb.garble(args, cwd=d, env=env, trace=trace, timeout=1800)
+        with self.lock:
+            self.garble_builds += 1
+        b = Built(prog, cfg, res, out, trace, tmpdir, ["garble"] + args, d, env)
+        _MEMO[key] = b
+        return b
+
+    def run_binary(self, built, args, timeout=60):
+        t = tuple(args)
+        if t not in built.runs:
+            env = {"PATH": "/usr/bin:/bin", "HOME": str(self.root)}
+            built.runs[t] = run([built.binary] + list(args), cwd=self.root, env=env, timeout=timeout)
+        return built.runs[t]
+
+    def garble_all(self, progs, cfgs, tmp_inside=lambda prog_i, cfg_i: False, workers=None, select=lambda prog_i, cfg_i: True):
+        """Every selected (program, configuration) pair; configurations run in parallel (one sandbox each)."""
+        out = {}
+        if not progs or not cfgs:
+            return out
+        if self.linker_seed is None:
+            out[(progs[0].tag, cfgs[0].name)] = self.prime_linker(progs[0], cfgs[0]) if not tmp_inside(0, 0) else self.garble(progs[0], cfgs[0], True)
+            self.linker_seed = self.sandbox(cfgs[0].name).gcache
+
+        def work(ci):
+            cfg = cfgs[ci]
+            for pi, prog in enumerate(progs):
+                if select(pi, ci):
+                    out[(prog.tag, cfg.name)] = self.garble(prog, cfg, tmp_inside(pi, ci))
+        with ThreadPoolExecutor(max_workers=workers or min(len(cfgs), int(os.environ.get("VERIF_NAMING_PARALLEL", "3")))) as ex:
+            list(ex.map(work, range(len(cfgs))))
+        return out
+
+    def cleanup(self):
+        rmtree(self.root)
+
+
+def quick_select(tier, seed):
+    """Quick tier: every module under the first configuration, every other configuration on every second
+    module (rotating with the seed); thorough: everything."""
+    if tier != "quick":
+        return lambda pi, ci: True
+    return lambda pi, ci: ci == 0 or (pi + ci + seed) % 2 == 0
+
+
+def arg_vectors(rng, n):
+    vecs = [[]]
+    while len(vecs) < n:
+        vecs.append([str(rng.randrange(1, 500)) for _ in range(len(vecs))])
+    return vecs
+
+
+def split_cells(cells):
+    """(normal cells, lead cells, cells that need a _test.go file)."""
+    normal, leads, tests = [], [], []
+    for c in cells:
+        if c["lead"] != "none":
+            leads.append(c)
+        elif c["nameClass"] in ("TestX", "TestMain"):
+            tests.append(c)
+        else:
+            normal.append(c)
+    return normal, leads, tests
+
+
+def verdict_for(cells_by_key, obj, home_toobf_key):
+    """Spec verdict (GoIdent row) for a planted object under a ToObfuscate key such as "TT"."""
+    k = (obj.kind, obj.exported, obj.name_class, obj.home, obj.home, "GoIdent")
+    c = cells_by_key.get(k)
+    if c is None and obj.name_class != "plain":
+        c = cells_by_key.get((obj.kind, obj.exported, "plain", obj.home, obj.home, "GoIdent"))
+    if c is None:
+        return None
+    return c["verdict"][home_toobf_key]
